@@ -55,6 +55,9 @@ def _child_main(inv: dict, wfd: int) -> None:
             os.environ.pop(k, None)
         for k, v in inv.get("env", {}).items():
             os.environ[k] = v
+        import tempfile
+
+        tempfile.tempdir = None  # (cached by the warm parent: the child's TMPDIR decides again, as in a new process)
         os.chdir(inv["cwd"])
         os.umask(inv.get("umask", 0o022))
         seams = Seams(inv, sink=sink)
